@@ -26,6 +26,22 @@ SK = ['skip', 'earlier', 'later', 'after']
 RP = ['skip', 'earlier', 'later', 'twice']
 
 
+def fixed_progs() -> list:
+    """programs that run first: a bound with policy 'twice' in the repeated hour over a time of day in the same hour, asked
+    before, between and after the two passes on the day itself (an object with a history must answer like a fresh one)"""
+    fold = 1761440400 * NS                       # 2025-10-26T01:00Z: Europe/Berlin goes from 03:00 CEST back to 02:00 CET
+    probes = [fold + d * MIN for d in (-150, -45, -20, 25, 50, 130)]
+    h = 3600 * NS
+    out = []
+    for base_rp in ('earlier', 'later', 'twice'):
+        ops = [['time', 2 * h + 45 * MIN, 'later', base_rp],
+               ['earliest', 0, 2 * h + 30 * MIN, 'later', 'twice'],
+               ['latest', 0, 2 * h + 30 * MIN, 'later', 'twice'],
+               ['earliest', 0, 2 * h + 50 * MIN, 'later', 'twice']]
+        out.append({'ops': ops, 'probes': probes})
+    return out
+
+
 def gen_prog(rng: random.Random) -> dict:
     ops = []
     kinds = []          # 't' | 'f'
@@ -197,7 +213,7 @@ def run(prop: str, tier: str, seed: int, scratch: Path, replay=None, model_ok=Tr
     if replay:
         cases = [json.loads(Path(replay).read_text())['case']]
     else:
-        cases = [gen_prog(rng) for _ in range(COUNTS[tier])]
+        cases = fixed_progs() + [gen_prog(rng) for _ in range(COUNTS[tier])]
     from concurrent.futures import ThreadPoolExecutor
     chunks = [cases[i::8] for i in range(8)]
     with ThreadPoolExecutor(max_workers=8) as ex:
@@ -248,7 +264,7 @@ def run(prop: str, tier: str, seed: int, scratch: Path, replay=None, model_ok=Tr
 
 def search(prop: str, seed: int, scratch: Path) -> list:
     rng = random.Random(f'search-{prop}-{seed}')
-    results = _impl([gen_prog(rng) for _ in range(1500)], scratch, 'search')
+    results = _impl(fixed_progs() + [gen_prog(rng) for _ in range(1500)], scratch, 'search')
     out = []
     for r in results:
         for msg in oracle(r)[:1]:
